@@ -818,3 +818,506 @@ def arc_default(ex, args, callee):
     if inner.startswith('Atomic<') or inner.startswith('AtomicU'):
         return arc_new(ex, [new_atomic(mk_int(0, 'u64'), 'default')], callee)
     raise Unsupported('Arc::default for ' + inner)
+
+
+# ----------------------------------------------------------------------------------
+# Option / Result combinators taking callables
+# ----------------------------------------------------------------------------------
+
+from .executor import call_callable
+
+
+@stub('Option::map')
+def option_map(ex, args, callee):
+    v = args[0]
+    if is_variant(v, 'Some'):
+        return some(call_callable(ex, args[1], [v.fields[0]]))
+    return NONE
+
+
+@stub('Option::and_then')
+def option_and_then(ex, args, callee):
+    v = args[0]
+    if is_variant(v, 'Some'):
+        return call_callable(ex, args[1], [v.fields[0]])
+    return NONE
+
+
+@stub('Option::ok_or_else')
+def option_ok_or_else(ex, args, callee):
+    v = args[0]
+    if is_variant(v, 'Some'):
+        return ok(v.fields[0])
+    return err(call_callable(ex, args[1], []))
+
+
+@stub('Option::unwrap_or_else')
+def option_unwrap_or_else(ex, args, callee):
+    v = args[0]
+    if is_variant(v, 'Some'):
+        return v.fields[0]
+    return call_callable(ex, args[1], [])
+
+
+@stub('Option::unwrap_or_default')
+def option_unwrap_or_default(ex, args, callee):
+    v = args[0]
+    if is_variant(v, 'Some'):
+        return v.fields[0]
+    raise Unsupported('unwrap_or_default on None')
+
+
+@stub('Option::filter')
+def option_filter(ex, args, callee):
+    v = args[0]
+    if is_variant(v, 'Some'):
+        c = Cell(v.fields[0], 'filter-arg')
+        r = call_callable(ex, args[1], [Ref(c, (), False)])
+        return v if ex.choose_bool(r.t) else NONE
+    return NONE
+
+
+@stub('Option::as_ref', 'Option::as_mut')
+def option_as_ref(ex, args, callee):
+    r = args[0]
+    v = ex.load(r) if isinstance(r, Ref) else r
+    if is_variant(v, 'Some'):
+        return some(Ref(r.cell, r.path + (0,), r.mut))
+    return NONE
+
+
+@stub('Option::take')
+def option_take(ex, args, callee):
+    r = args[0]
+    v = ex.load(r)
+    ex.store(r, NONE)
+    return v
+
+
+@stub('Option::cloned', 'Option::copied')
+def option_cloned(ex, args, callee):
+    v = args[0]
+    if is_variant(v, 'Some'):
+        return some(ex.deref_all(v.fields[0]))
+    return NONE
+
+
+@stub('Result::map')
+def result_map(ex, args, callee):
+    v = args[0]
+    if is_variant(v, 'Ok'):
+        return ok(call_callable(ex, args[1], [v.fields[0]]))
+    return v
+
+
+@stub('Result::map_err')
+def result_map_err(ex, args, callee):
+    v = args[0]
+    if is_variant(v, 'Err'):
+        return err(call_callable(ex, args[1], [v.fields[0]]))
+    return v
+
+
+@stub('Result::and_then')
+def result_and_then(ex, args, callee):
+    v = args[0]
+    if is_variant(v, 'Ok'):
+        return call_callable(ex, args[1], [v.fields[0]])
+    return v
+
+
+@stub('Result::or_else')
+def result_or_else(ex, args, callee):
+    v = args[0]
+    if is_variant(v, 'Err'):
+        return call_callable(ex, args[1], [v.fields[0]])
+    return v
+
+
+@stub('Result::ok')
+def result_ok(ex, args, callee):
+    v = args[0]
+    if is_variant(v, 'Ok'):
+        return some(v.fields[0])
+    ex.drop_value(v.fields[0])
+    return NONE
+
+
+@stub('Result::err')
+def result_err(ex, args, callee):
+    v = args[0]
+    return some(v.fields[0]) if is_variant(v, 'Err') else NONE
+
+
+@stub('Result::unwrap_or')
+def result_unwrap_or(ex, args, callee):
+    v = args[0]
+    return v.fields[0] if is_variant(v, 'Ok') else args[1]
+
+
+@stub('Result::unwrap_or_else')
+def result_unwrap_or_else(ex, args, callee):
+    v = args[0]
+    return v.fields[0] if is_variant(v, 'Ok') else call_callable(ex, args[1], [v.fields[0]])
+
+
+@stub('Result::as_ref')
+def result_as_ref(ex, args, callee):
+    r = args[0]
+    v = ex.load(r)
+    return Agg('enum', 'Result', v.variant, (Ref(r.cell, r.path + (0,), False),), v.vidx)
+
+
+# ----------------------------------------------------------------------------------
+# more iterator adaptors
+# ----------------------------------------------------------------------------------
+
+@stub('slice::iter_mut', 'Vec::iter_mut')
+def slice_iter_mut(ex, args, callee):
+    r = args[0]
+    v = ex.deref_all(r)
+    if not isinstance(v, Vec):
+        raise Unsupported('iter_mut over %r' % (v,))
+    while isinstance(r, Ref) and isinstance(ex.load(r), Ref):
+        r = ex.load(r)
+    return Native('SliceIter', (Ref(r.cell, r.path, True), 0, len(v.elems)))
+
+
+def _drain(ex, r):
+    """Generator over the remaining items of the iterator stored at reference r."""
+    while True:
+        itv = ex.load(r)
+        it2, item = iter_next(ex, itv)
+        ex.store(r, it2)
+        if is_variant(item, 'None'):
+            return
+        yield item.fields[0]
+
+
+@stub('<* as Iterator>::find')
+def iter_find(ex, args, callee):
+    r, pred = args[0], args[1]
+    for item in _drain(ex, r):
+        c = Cell(item, 'find-arg')
+        res = call_callable(ex, pred, [Ref(c, (), False)])
+        if ex.choose_bool(res.t):
+            return some(item)
+    return NONE
+
+
+@stub('<* as Iterator>::position')
+def iter_position(ex, args, callee):
+    r, pred = args[0], args[1]
+    for i, item in enumerate(_drain(ex, r)):
+        res = call_callable(ex, pred, [item])
+        if ex.choose_bool(res.t):
+            return some(mk_int(i, 'usize'))
+    return NONE
+
+
+@stub('<* as Iterator>::all')
+def iter_all(ex, args, callee):
+    r, pred = args[0], args[1]
+    for item in _drain(ex, r):
+        res = call_callable(ex, pred, [item])
+        if not ex.choose_bool(res.t):
+            return FALSE
+    return TRUE
+
+
+@stub('<* as Iterator>::count')
+def iter_count(ex, args, callee):
+    c = Cell(args[0], 'count-iter')
+    return mk_int(sum(1 for _ in _drain(ex, Ref(c, (), True))), 'usize')
+
+
+@stub('<* as Iterator>::for_each')
+def iter_for_each(ex, args, callee):
+    c = Cell(args[0], 'for-each-iter')
+    for item in _drain(ex, Ref(c, (), True)):
+        call_callable(ex, args[1], [item])
+    return UNIT
+
+
+@stub('<* as Iterator>::last')
+def iter_last(ex, args, callee):
+    c = Cell(args[0], 'last-iter')
+    last = NONE
+    for item in _drain(ex, Ref(c, (), True)):
+        last = some(item)
+    return last
+
+
+@stub('<* as Iterator>::rev')
+def iter_rev(ex, args, callee):
+    itv = args[0]
+    c = Cell(itv, 'rev-iter')
+    items = list(_drain(ex, Ref(c, (), True)))
+    return Native('VecIntoIter', (tuple(reversed(items)), 0))
+
+
+@stub('<* as Iterator>::filter')
+def iter_filter(ex, args, callee):
+    c = Cell(args[0], 'filter-iter')
+    out = []
+    for item in _drain(ex, Ref(c, (), True)):
+        cc = Cell(item, 'filter-arg')
+        res = call_callable(ex, args[1], [Ref(cc, (), False)])
+        if ex.choose_bool(res.t):
+            out.append(item)
+    return Native('VecIntoIter', (tuple(out), 0))
+
+
+@stub('<* as Iterator>::cloned', '<* as Iterator>::copied')
+def iter_cloned(ex, args, callee):
+    c = Cell(args[0], 'cloned-iter')
+    return Native('VecIntoIter', (tuple(ex.deref_all(i) for i in _drain(ex, Ref(c, (), True))), 0))
+
+
+@stub('<* as Iterator>::chain')
+def iter_chain(ex, args, callee):
+    c1, c2 = Cell(args[0], 'chain-a'), Cell(into_iter(ex, [args[1]], callee), 'chain-b')
+    items = list(_drain(ex, Ref(c1, (), True))) + list(_drain(ex, Ref(c2, (), True)))
+    return Native('VecIntoIter', (tuple(items), 0))
+
+
+@stub('<* as Iterator>::sum')
+def iter_sum(ex, args, callee):
+    c = Cell(args[0], 'sum-iter')
+    tot = None
+    for item in _drain(ex, Ref(c, (), True)):
+        item = ex.deref_all(item)
+        tot = item if tot is None else Int(tot.t + item.t, tot.ty)
+    if tot is None:
+        m = re.search(r'sum::<([a-z0-9]+)>', callee)
+        return mk_int(0, m.group(1) if m else 'usize')
+    return tot
+
+
+_collect_plain = iter_collect
+
+
+@stub('<* as Iterator>::collect')
+def iter_collect2(ex, args, callee):
+    m = re.search(r'collect::<(Option|Result)<Vec<(.*?)>(?:, (.*))?>>$', callee.strip())
+    if not m:
+        return _collect_plain(ex, args, callee)
+    kind = m.group(1)
+    itv = args[0]
+    out = []
+    while True:
+        itv, item = iter_next(ex, itv)
+        if is_variant(item, 'None'):
+            break
+        e = item.fields[0]
+        if kind == 'Option':
+            if is_variant(e, 'None'):
+                return NONE
+            out.append(e.fields[0])
+        else:
+            if is_variant(e, 'Err'):
+                return e
+            out.append(e.fields[0])
+    v = Vec(tuple(out), type_key(m.group(2)))
+    return some(v) if kind == 'Option' else ok(v)
+
+
+# ----------------------------------------------------------------------------------
+# equality on strings / options / error kinds
+# ----------------------------------------------------------------------------------
+
+def str_eq_term(ex, a: Str, b: Str):
+    ka, kb = a.key(), b.key()
+    if ka == kb:
+        return z3.BoolVal(True)
+    la = all(isinstance(p, bytes) for p in a.norm())
+    lb = all(isinstance(p, bytes) for p in b.norm())
+    if la and lb:
+        return z3.BoolVal(False)
+    k1, k2 = sorted([repr(ka), repr(kb)])
+    import hashlib
+    v = z3.Bool('streq_' + hashlib.sha1((k1 + '|' + k2).encode()).hexdigest()[:12])
+    if not hasattr(ex, 'streq_vars'):
+        ex.streq_vars = {}
+    ex.streq_vars[v.decl().name()] = (a, b)
+    # equal strings have equal lengths
+    ex.assume(z3.Implies(v, a.length() == b.length()))
+    return v
+
+
+@stub('<str as PartialEq>::eq', '<String as PartialEq>::eq', '<&str as PartialEq>::eq', 'str::eq', '<[u8] as PartialEq>::eq')
+def str_eq(ex, args, callee):
+    return Bool(str_eq_term(ex, as_str(ex, args[0]), as_str(ex, args[1])))
+
+
+@stub('<str as PartialEq>::ne', '<String as PartialEq>::ne')
+def str_ne(ex, args, callee):
+    return Bool(z3.Not(str_eq_term(ex, as_str(ex, args[0]), as_str(ex, args[1]))))
+
+
+def value_eq(ex, a, b):
+    a, b = ex.deref_all(a), ex.deref_all(b)
+    if isinstance(a, Str) and isinstance(b, Str):
+        return str_eq_term(ex, a, b)
+    if isinstance(a, Int) and isinstance(b, Int):
+        return a.t == b.t
+    if isinstance(a, Bool) and isinstance(b, Bool):
+        return a.t == b.t
+    if isinstance(a, Native) and isinstance(b, Native) and a.rty == b.rty == 'ErrorKind':
+        return a.state == b.state
+    if isinstance(a, Agg) and isinstance(b, Agg):
+        if a.kind == 'enum' and (a.variant != b.variant):
+            return z3.BoolVal(False)
+        if len(a.fields) != len(b.fields):
+            return z3.BoolVal(False)
+        cs = [value_eq(ex, x, y) for x, y in zip(a.fields, b.fields)]
+        return z3.And(*cs) if cs else z3.BoolVal(True)
+    if isinstance(a, Unit) and isinstance(b, Unit):
+        return z3.BoolVal(True)
+    raise Unsupported('equality of %r and %r' % (a, b))
+
+
+@stub('<Option as PartialEq>::eq', '<ErrorKind as PartialEq>::eq', '<Result as PartialEq>::eq', '<* as PartialEq>::eq')
+def generic_eq(ex, args, callee):
+    return Bool(z3.simplify(value_eq(ex, args[0], args[1])))
+
+
+@stub('<Option as PartialEq>::ne', '<ErrorKind as PartialEq>::ne', '<* as PartialEq>::ne')
+def generic_ne(ex, args, callee):
+    return Bool(z3.simplify(z3.Not(value_eq(ex, args[0], args[1]))))
+
+
+# ----------------------------------------------------------------------------------
+# more atomics
+# ----------------------------------------------------------------------------------
+
+@stub('Atomic::swap')
+def atomic_swap(ex, args, callee):
+    a = atomic_obj(ex, args[0])
+    ex.events.append(('atomic', 'swap', a.state.name, ordering_name(args[2]), args[1]))
+    old = a.state.v
+    a.state.v = args[1]
+    return old
+
+
+@stub('Atomic::compare_exchange', 'Atomic::compare_exchange_weak')
+def atomic_cas(ex, args, callee):
+    a = atomic_obj(ex, args[0])
+    hook = getattr(ex, 'atomic_hook', None)
+    if hook:
+        r = hook(ex, 'cas', a, (args[1], args[2]), (ordering_name(args[3]), ordering_name(args[4])))
+        if r is not None:
+            return r
+    old = a.state.v
+    eq = old.t == args[1].t if isinstance(old, Int) else old.t == args[1].t
+    if ex.choose_bool(eq):
+        ex.events.append(('atomic', 'cas-ok', a.state.name, ordering_name(args[3]), args[2]))
+        a.state.v = args[2]
+        return ok(old)
+    ex.events.append(('atomic', 'cas-fail', a.state.name, ordering_name(args[4]), None))
+    return err(old)
+
+
+@stub('Atomic::fetch_or', 'Atomic::fetch_and', 'Atomic::fetch_max', 'Atomic::fetch_min', 'Atomic::fetch_xor')
+def atomic_fetch_misc(ex, args, callee):
+    a = atomic_obj(ex, args[0])
+    op = norm_name(callee)
+    ex.events.append(('atomic', op, a.state.name, ordering_name(args[2]), args[1]))
+    old = a.state.v
+    x, y = old.t, args[1].t
+    if isinstance(old, Bool):
+        new = Bool({'fetch_or': z3.Or(x, y), 'fetch_and': z3.And(x, y), 'fetch_xor': z3.Xor(x, y)}[op])
+    else:
+        new = Int({'fetch_or': x | y, 'fetch_and': x & y, 'fetch_xor': x ^ y,
+                   'fetch_max': z3.If(z3.UGT(x, y), x, y), 'fetch_min': z3.If(z3.ULT(x, y), x, y)}[op], old.ty)
+    a.state.v = new
+    return old
+
+
+def norm_name(callee):
+    return strip_generics(callee).split('::')[-1]
+
+
+@stub('Atomic::get_mut', 'Atomic::into_inner')
+def atomic_into_inner(ex, args, callee):
+    a = atomic_obj(ex, args[0])
+    return a.state.v
+
+
+# ----------------------------------------------------------------------------------
+# f64 (IEEE semantics through z3's FP theory; values travel as their 64 bits)
+# ----------------------------------------------------------------------------------
+
+def fp(v):
+    return z3.fpBVToFP(v.bits, z3.Float64())
+
+
+def fp_result(t):
+    return Float(z3.fpToIEEEBV(t))
+
+
+@stub('f64::fract')
+def f64_fract(ex, args, callee):
+    x = fp(args[0])
+    return fp_result(z3.fpSub(z3.RNE(), x, z3.fpRoundToIntegral(z3.RTZ(), x)))
+
+
+@stub('f64::trunc')
+def f64_trunc(ex, args, callee):
+    return fp_result(z3.fpRoundToIntegral(z3.RTZ(), fp(args[0])))
+
+
+@stub('f64::floor')
+def f64_floor(ex, args, callee):
+    return fp_result(z3.fpRoundToIntegral(z3.RTN(), fp(args[0])))
+
+
+@stub('f64::ceil')
+def f64_ceil(ex, args, callee):
+    return fp_result(z3.fpRoundToIntegral(z3.RTP(), fp(args[0])))
+
+
+@stub('f64::round')
+def f64_round(ex, args, callee):
+    return fp_result(z3.fpRoundToIntegral(z3.RNA(), fp(args[0])))
+
+
+@stub('f64::abs')
+def f64_abs(ex, args, callee):
+    return Float(args[0].bits & z3.BitVecVal((1 << 63) - 1, 64))
+
+
+@stub('f64::is_nan')
+def f64_is_nan(ex, args, callee):
+    return Bool(z3.fpIsNaN(fp(args[0])))
+
+
+@stub('f64::is_finite')
+def f64_is_finite(ex, args, callee):
+    x = fp(args[0])
+    return Bool(z3.Not(z3.Or(z3.fpIsNaN(x), z3.fpIsInf(x))))
+
+
+@stub('f64::is_infinite')
+def f64_is_infinite(ex, args, callee):
+    return Bool(z3.fpIsInf(fp(args[0])))
+
+
+@stub('f64::is_sign_negative')
+def f64_is_sign_negative(ex, args, callee):
+    return Bool(z3.Extract(63, 63, args[0].bits) == 1)
+
+
+@stub('f64::is_sign_positive')
+def f64_is_sign_positive(ex, args, callee):
+    return Bool(z3.Extract(63, 63, args[0].bits) == 0)
+
+
+@stub('f64::to_bits')
+def f64_to_bits(ex, args, callee):
+    return Int(args[0].bits, 'u64')
+
+
+@stub('f64::from_bits')
+def f64_from_bits(ex, args, callee):
+    return Float(args[0].t)
